@@ -32,6 +32,8 @@ pub use allocator::PageNumber;
 #[cfg(feature = "verif-hooks")]
 pub(crate) use ops::overflow::verif_total_needed_pages;
 #[cfg(feature = "verif-hooks")]
+pub(crate) use ops::overflow::verif_async_read;
+#[cfg(feature = "verif-hooks")]
 pub(crate) use ops::verif_branch;
 #[cfg(feature = "verif-hooks")]
 pub(crate) use ops::verif_leaf;
